@@ -258,6 +258,13 @@ def run_check(prop: str, profile_name: str, tier: str, seed: int, jobs: int, spe
         k = match_known(known, prop, sig)
         if k is not None:
             known_hit[k["signature"]] = known_hit.get(k["signature"], 0) + len(rs)
+            if os.environ.get("FSSIM_WITNESS") and k.get("witness") and not os.path.exists(os.path.join(VERIF, k["witness"])) and "case" in rs[0]:
+                # development aid: produce the committed witness replay of a listed finding (never at check time)
+                v0 = next(v for v in rs[0]["violations"] if v["signature"] == sig)
+                small = pool.submit(_minimise_in_worker, (rs[0]["case"], prop, sig, 25.0)).result(timeout=180)
+                os.makedirs(os.path.join(VERIF, "findings"), exist_ok=True)
+                with open(os.path.join(VERIF, k["witness"]), "w") as f:
+                    json.dump({"tool": "fssim", "property": prop, "violation": v0, "case": small}, f, indent=1, default=repr)
             continue
         first = rs[0]
         v = next(v for v in first["violations"] if v["signature"] == sig)
